@@ -2,6 +2,7 @@ package rules
 
 import (
 	"fmt"
+	"strings"
 
 	. "verif/checker/core"
 )
@@ -24,4 +25,22 @@ func runShared(c *Ctx, from string, f func()) (ok bool) {
 	}()
 	f()
 	return true
+}
+
+// importShared evaluates pack `from` on a sub-context and re-states those of its
+// obligations whose rule id is `rule` and whose key contains `keyPart` under this
+// property's rule id `as` (same code, same constructs, same verdicts). Used where a
+// clause of this property IS the other property's rule on a construct they share.
+func importShared(c *Ctx, from string, run func(*Ctx), rule, keyPart, as string, min int) {
+	sub := NewCtx(c.P, from, c.Tier)
+	if !runShared(c, from, func() { run(sub) }) {
+		return
+	}
+	for _, o := range sub.Obls {
+		if o.Rule != rule || !strings.Contains(o.Key, keyPart) {
+			continue
+		}
+		c.Check(o.Held, as, strings.TrimPrefix(o.Key, o.Rule+"|"), o.Pos, o.Detail)
+	}
+	c.Min(as, min)
 }
